@@ -229,8 +229,25 @@ def run(rep, pdb, tier):
                     vals = _reaching_values(ctx, d, at=anode[0]) if d[0] == "var" else []
                     incs = [a for a in ctx.assigns.get(d[1], [])] if d[0] == "var" else []
                     okl = vals[:1] == [DEG0] and len(incs) == 1 and incs[0].get("k") == "AssignOp" and incs[0]["op"] == "+=" and ctx.term(incs[0]["r"]) == DEG1
-            ok = okv and okr and okl and empt
-            det = "product[i+j] += self[i]*rhs[j]=%s both loops 0..=own degree=%s length deg+deg'+1=%s empty factor gives empty product=%s" % (okv, okr, okl, empt)
+            # every way of returning is the empty shortcut or the accumulated convolution: no fast path hands some sizes to another scheme
+            from .guards import facts as _facts
+            extra = []
+            for n_ in walk(fn["body"]):
+                if n_.get("k") == "Ret" and not any(a_.get("k") == "Closure" for a_ in ancestors(n_)):
+                    fs_ = _facts(ctx, n_)
+                    emptyish = any((f_[0] == "cmp" and f_[1] == "==" and num(0) in (f_[2], f_[3]) and (LEN(CO0) in (f_[2], f_[3]) or LEN(CO1) in (f_[2], f_[3]))) or
+                                   (f_[0] == "or" and all(len(a_) == 1 and a_[0][0] == "cmp" and a_[0][1] == "==" and num(0) in (a_[0][2], a_[0][3]) for a_ in f_[1])) for f_ in fs_)
+                    for a_ in ancestors(n_):
+                        # the Err arm of `match X.degree() { Ok(d) => d, Err(_) => return .. }`: X is empty there
+                        if isinstance(a_.get("pat"), dict) and str(a_["pat"].get("path", "")).endswith("Err") and a_.get("_p") is not None and a_["_p"].get("k") == "Match":
+                            sc_ = strip(a_["_p"]["scrut"])
+                            if sc_.get("k") == "MethodCall" and callee_path(sc_) == "%s::degree" % PT:
+                                emptyish = True
+                    if not emptyish:
+                        extra.append(loc(n_))
+            single = not extra
+            ok = okv and okr and okl and empt and single
+            det = "product[i+j] += self[i]*rhs[j]=%s both loops 0..=own degree=%s length deg+deg'+1=%s empty factor gives empty product=%s other return paths=%s" % (okv, okr, okl, empt, extra)
         rep.add("graded-product", "the accumulator index is the sum of the two coefficient indices; both loops cover 0..=deg of their own operand; the result has deg+deg'+1 zeros; an empty factor gives the empty product",
                 ok, fn["body"], det, where=loc(fn["body"]))
     # ---- Horner
@@ -252,7 +269,10 @@ def run(rep, pdb, tier):
             from .common import return_paths as _rp
             # the accumulated value is what is returned on the general path (whether the empty case is an early return or the
             # other branch of an if / else tail)
-            ok = ok and any(v_ == p for _f, v_, _n in _rp(ctx))
+            paths = list(_rp(ctx))
+            def _emptyish(fs_):
+                return any(f_[0] == "cmp" and f_[1] == "==" and {f_[2], f_[3]} == {LEN(CO0), num(0)} for f_ in fs_)
+            ok = ok and any(v_ == p for _f, v_, _n in paths) and all(v_ == p or _emptyish(f_) for f_, v_, _n in paths)
         rep.add("horner", rule, ok, fn["body"], "", where=loc(fn["body"]))
     # ---- derivative
     fn = pdb.fn("%s::derivative" % PT)
